@@ -207,6 +207,16 @@ func (b *builder) make(s *Sch) core.ZodSchema {
 		return asSchema(call(build(s.Elem), "Optional"))
 	case "nul":
 		return asSchema(call(build(s.Elem), "Nilable"))
+	case "lazy":
+		inner := build(s.Elem)
+		var l any = types.LazyAny(func() any { return inner })
+		if s.Kind[0] == 'o' {
+			l = call(l, "Optional")
+		}
+		if s.Kind[1] == 'n' {
+			l = call(l, "Nilable")
+		}
+		return asSchema(l)
 	case "id":
 		inner := build(s.Elem)
 		m := reflect.ValueOf(inner).MethodByName("Meta")
@@ -292,7 +302,7 @@ func flatten(cs []*Sch) []*Sch {
 			return
 		}
 		switch s.K {
-		case "opt", "nul", "id":
+		case "opt", "nul", "id", "lazy":
 			walk(s.Elem)
 		case "union", "xor", "and":
 			for _, it := range s.Items {
